@@ -21,6 +21,13 @@ def run(run):
         run.gen_replay('Gen_Model', 'Gen_Model_states.cfg' if quick else 'Gen_Model.cfg', 'harness.replay_model_graph', {'langs': run.libs(), 'each_step': True},
                        env={'VERIF_LANG': lang, 'VERIF_DEPTH': depth, 'VERIF_MAXREJ': 0, 'VERIF_GRAPH': 1}, timeout=2400,
                        name='attack graph after ModelSM behaviours of depth %d on %s (%s)' % (depth, lang, 'one per distinct state' if quick else 'every accepted behaviour'), keep=graphgen.is_c01)
+    # the graph regenerated after every association edit (caches between model and graph would show here)
+    for lang, na, k in ((('LTrans', 2, 3),) if quick else (('LTiny', 3, 2), ('LTrans', 3, 3), ('LSet', 3, 2))):
+        run.gen_replay('Gen_Model', 'Gen_Model_c06.cfg', 'harness.replay_model_graph', {'langs': run.libs(), 'each_step': True},
+                       env={'VERIF_LANG': lang, 'VERIF_DEPTH': na + k, 'VERIF_NASSETS': na, 'VERIF_BUILDFIRST': 1, 'VERIF_BUILDOPS': 'assoc',
+                            'VERIF_MAXMEMBERS': 2, 'VERIF_MAXASSETS': na, 'VERIF_NODEF': 1, 'VERIF_MAXREJ': 0, 'VERIF_GRAPH': 1},
+                       timeout=2400, keep=graphgen.is_c01,
+                       name='%d assets then every history of %d association edits / removals, graph after every step, %s' % (na, k, lang))
     run.gen_replay('Gen_Model', 'Gen_Model_sim.cfg', 'harness.replay_model_graph', {'langs': run.libs(), 'each_step': True},
                    env={'VERIF_LANG': 'LTiny', 'VERIF_DEPTH': 10, 'VERIF_MAXREJ': 2, 'VERIF_GRAPH': 1}, simulate=10 ** 9, depth=11,
                    max_cases=4000 if quick else 80000, workers=8, timeout=300 if quick else 2400, keep=graphgen.is_c01,
